@@ -1458,7 +1458,9 @@ def run(ctx):
         explore.merge_stats(total, st)
         # explore.bfs reports closure=True whenever the depth bound is reached (its last level is never
         # extended); closure is claimed here only if the last executed level found no new canonical state
-        total["searches"][-1]["closure"] = bool(st["levels"]) and st["levels"][-1]["new_states"] == 0 and not st["capped"]
+        # or if the frontier ran empty before the bound (states with a violation are never extended, so
+        # with violations present "closure" is closure of the violation-free part)
+        total["searches"][-1]["closure"] = bool(st["levels"]) and (len(st["levels"]) < dd + 1 or st["levels"][-1]["new_states"] == 0) and not st["capped"]
         st["closure"] = total["searches"][-1]["closure"]
         total["searches"][-1]["shape"] = name
         total["searches"][-1]["states"] = st["states"]
